@@ -190,6 +190,21 @@ def run(ctx: Context, rep) -> None:
     rep.floor("C11.select", rep.count("C11.select"), 10, "instances")
     from sa.rules import shared as _sh
     _sh.check_label_copy(ctx, rep, "C11.label-copy")
+    # selection by metadata returns ALL matching shards: the predicate is
+    # applied to the whole walk, before any first-k truncation (C12.stages)
+    from sa.rules import common as C__
+    from sa.rules.c03 import selection_stages, selection_terms
+    rep.rule("C11.stages", "in every combination of selection options the "
+             "predicate filter is the first stage applied to the walk of the "
+             "split")
+    sel_fn_ = ctx.fn(C__.SHARD_PATHS)
+    for key, t in sorted(selection_terms(ctx).items()):
+        got = selection_stages(t)
+        want = ["walk"] + [n for n, on in zip(("filter", "first-k", "limit"),
+                                               key) if on] + ["paths"]
+        rep.ob("C11.stages", got == want, loc=sel_fn_.loc(),
+               where=sel_fn_.qualname, construct=f"options {key}: {got}",
+               message=f"expected stages {want}", sample=False)
 
 
 
